@@ -12,17 +12,17 @@ META = {
              level_note='trusted: the predicate transcription; ASan as witness that all indices read lie inside the allocations'),
 
  'C04': dict(technique='runtime monitoring: singular-return oracle with FE_INEXACT exactness witness + ASan over constructed exactly singular inputs',
-             level_text='on every info in [1,n] return: stored candidates of the reported column exactly zero, earlier pivots nonzero, leading-block factor identity, B/X untouched, no solve; "reported exactly when" decided only on executions witnessed exact (FE_INEXACT clear) or rounding-immune (empty row/column)',
+             level_text='on every info in [1,n] return: stored candidates of the reported column exactly zero, earlier pivots nonzero, leading-block factor identity, B/X untouched, no solve; "reported exactly when" decided only on executions witnessed exact (FE_INEXACT clear) or rounding-immune (empty row/column); a share of the driver route runs with Equil = YES on inputs scaled by powers of two, where "right-hand side untouched, no solve" is judged on the singular return',
              level_note='trusted: FE_INEXACT as exactness witness, construction of exactly singular / nonsingular inputs; crashes after a zero pivot are the listed finding F6'),
  'C05': dict(technique='runtime monitoring: scaled-system residual oracle + bitwise A/B mutation snapshots + ASan/UBSan over generated ?gssvx executions',
-             level_text='A_after = diag(R) A diag(C) per equed bitwise (any association), B_after per the documented table bitwise, indices and padding untouched, residual of X in the scaled system against the factor-derived bound; Trans x Equil x refine x NC/NR x orderings, bundled and vendor BLAS',
+             level_text='A_after = diag(R) A diag(C) per equed bitwise (any association), B_after per the documented table bitwise, indices and padding untouched, residual of X in the scaled system against the factor-derived bound; Trans x Equil x refine x NC/NR x orderings, bundled and vendor BLAS; 40 % of the cases are re-solved with Fact = FACTORED (another Trans, new B) against the same oracles; every fresh factorization starts from a stale equed letter; inputs whose columns lie beyond the exponent range check the equed/A/B contract when ?gsequ gives up',
              level_note='trusted: long double reference; refined X judged only under the Skeel/conditioning gate (stated in evidence as skipped_by_rule)'),
 
  'C06': dict(technique='runtime monitoring: per-step oracles over generated ?gssvx call histories (refactor / re-solve) + ASan/UBSan',
-             level_text='generated histories over {DOFACT, SamePattern, SamePattern_SameRowPerm, FACTORED} under the documented preconditions with value streams that keep or abandon the remembered pivots; every step judged by the C02/C03/C05 oracles, FACTORED steps by byte hashes of all factor objects',
+             level_text='generated histories over {DOFACT, SamePattern, SamePattern_SameRowPerm, FACTORED} under the documented preconditions with value streams that keep or abandon the remembered pivots; every step judged by the C02/C03/C05 oracles, FACTORED steps by byte hashes of all factor objects; the diagonal-preference (pivot policy) oracle is applied to every factorization step, exempting columns that kept their remembered pivot row',
              level_note='trusted: the per-step oracles of C01-C05; histories sampled, not exhausted'),
  'C07': dict(technique='runtime monitoring: bitwise differential of factors across storage-acquisition variants + ASan',
-             level_text='per input the factorization is repeated under fill estimates 1..8 and caller workspaces of decreasing length at 4/8-byte alignment; perms and all factor bytes must equal the fill-30/malloc reference; QuerySpace accounting recomputed from the returned structure; complete and incomplete LU; asan and -O2 builds',
+             level_text='per input the factorization is repeated under fill estimates 1..8 and caller workspaces of decreasing length at 4/8-byte alignment; perms and all factor bytes must equal the fill-30/malloc reference; QuerySpace accounting recomputed from the returned structure; complete and incomplete LU; asan and -O2 builds; capacity walk: each growable array (lusup, ucol/usub, lsub) is started at the fill level of a column boundary or any value up to its final size (guarded hook in ?LUMemInit), under library allocation and in a generous workspace, bitwise comparison again; tall matrices; workspaces carry junk incl. small integers that look like stale marks; a workspace several times the dense factors must succeed',
              level_note='trusted: bitwise equality is what correct code produces with the bundled kernels (soaked); intra-workspace overruns show up as changed factors'),
  'C10': dict(technique='runtime monitoring: definition-based elimination-tree / permutation oracles + ASan over generated patterns',
              level_text='bijection, pattern-only dependence (metamorphic twin), etree equal to the tree computed from the definition on A*Pc, parent > child, postorder contiguity, relabelling clause for caller orderings, AC column ranges, untouched inputs for Fact != DOFACT; 32- and 64-bit indices',
@@ -34,14 +34,14 @@ META = {
              level_text='bijection, nonzero diagonal, diagonal product equal to the Hungarian optimum, scaled entries <= 1 and = 1 on the matching, inputs unchanged, structural singularity reported; wide magnitudes, ties, zero diagonals, real and complex',
              level_note='trusted: the harness Hungarian solver (its matching is re-validated), sprank'),
  'C18': dict(technique='runtime monitoring: exhaustive table of documented single-argument corruptions with byte snapshots and allocation ledger',
-             level_text='290-row table (routine, corrupted argument, documented info) x base-call variants x four precisions enumerated completely; info code, byte snapshots of every object the property names, ledger empty, no abort',
+             level_text='290-row table (routine, corrupted argument, documented info) x base-call variants x four precisions enumerated completely; info code, byte snapshots of every object the property names, ledger empty, no abort; size queries (lwork = -1) are used as base calls too',
              level_note='trusted: the table transcription from the routine headers'),
  'C20': dict(technique='runtime monitoring: handle histories through the Fortran bridge compared bitwise with ?gssv + handle-tagged allocation ledger + ASan',
              level_text='factor/solve*/free histories over 1-4 interleaved handles: caller arrays byte-identical, every solve bitwise equal to ?gssv on the 0-based copy, repeated solves identical, padding untouched, everything a handle allocated released by iopt=3',
              level_note='trusted: determinism of the library (C09); the bridge is driven from C (no Fortran compiler in the image)'),
 
  'C08': dict(technique='runtime monitoring with fault enumeration: workspace-length sweep inside a canary/ASan-poisoned arena, injected ?expand allocation failures, size-query snapshots',
-             level_text='per input every workspace length on the 4-byte grid in windows around 0 and the minimal sufficient length (plus a coarse grid), both alignments, complete and incomplete LU, factor routines and expert drivers: success with factors byte-identical to the malloc run, or info > n; every allocation-failure position among the ?expand requests; lwork = -1 with byte snapshots of all arguments',
+             level_text='per input every workspace length on the 4-byte grid in windows around 0 and the minimal sufficient length (plus a coarse grid), both alignments, complete and incomplete LU, factor routines and expert drivers: success with factors byte-identical to the malloc run, or info > n; every allocation-failure position among the ?expand requests; lwork = -1 with byte snapshots of all arguments; tall matrices through ?gstrf, ILU inputs with missing diagonals and an emptied last column; a generous workspace must succeed',
              level_note='trusted: canaries + ASan poisoning for outside writes, bitwise comparison for damage inside the workspace; leak on the out-of-space return of ?gstrf is the listed finding F7b'),
 
  'C14': dict(technique='runtime monitoring: long double reference for sparse triangular solves / products over all flag spellings, strides and paddings + byte snapshots + ASan',
@@ -52,12 +52,12 @@ META = {
              level_text='?gsisx on structurally nonsingular inputs over the ILU option lattice: completes, info equals the number of pivot-replacement events, bijections, nonzero finite U diagonal, ILU structure predicate, restored index arrays, X is the solve defined by the returned factors, complete-LU identity when dropping is off and nothing was replaced',
              level_note='trusted: the guarded event hooks, long double references; structurally singular inputs are outside the property (finding F14 listed)'),
  'C16': dict(technique='runtime monitoring: writer-as-reference differential over generated HB/RB/MM/triplet encodings + ASan',
-             level_text='reader output (dims, nnz, per-column pattern and values = strtod of the printed text) compared exactly with the matrix the generator rendered, over Fortran edit descriptors, counts per line, E/D exponents, scale factors, RHS blocks, symmetric files with and without diagonal entries, coordinate orders and comments',
+             level_text='reader output (dims, nnz, per-column pattern and values = strtod of the printed text) compared exactly with the matrix the generator rendered, over Fortran edit descriptors, counts per line, E/D exponents, scale factors, RHS blocks, symmetric files with and without diagonal entries, coordinate orders and comments; Matrix Market headers with blank and indented comment lines',
              level_note='trusted: the generator emits only well-formed files; readers for known-fatal encodings run in a forked child'),
 
  'C19': dict(technique='runtime monitoring: ASan+UBSan, MemorySanitizer, valgrind memcheck, exact allocation ledger and junk-fill differential over generated API lifecycles with forced error exits',
-             level_text='lifecycle programs over the computational routines with forced singular / out-of-space / size-query exits, executed twice under different junk fill (bitwise equal outputs), ledger empty and no bad free at the end; the same programs and the driver/history/ILU workloads under MemorySanitizer, a subsample under memcheck; all other checks of the suite run under ASan+UBSan with the ledger as well',
-             level_note='trusted: the sanitizers and memcheck; red-zone tools miss intra-object overflows (covered by the bitwise checks of C07/C08); three listed findings (F6, F14, F7b) are reported as KNOWN-FINDING'),
+             level_text='lifecycle programs over the computational routines with forced singular / out-of-space / size-query exits, executed twice under different junk fill (bitwise equal outputs), ledger empty and no bad free at the end; the same programs and the driver/history/ILU workloads under MemorySanitizer, a subsample under memcheck; all other checks of the suite run under ASan+UBSan with the ledger as well; 30 % of the lifecycles go through the expert drivers (?gssvx / ?gsisx with equilibration, MC64, refinement) ended by a too-short workspace, an injected growth failure, a size query or a FACTORED re-solve; lifecycles also start the growable arrays at small capacities (guarded hook)',
+             level_note='trusted: the sanitizers and memcheck; red-zone tools miss intra-object overflows (covered by the bitwise checks of C07/C08); two listed findings (F6, F14) are reported as KNOWN-FINDING'),
 
  'C12': dict(technique='runtime monitoring: true condition numbers from a long double inverse as one-sided oracle for the estimate, growth factor recomputed from the returned factors + ASan/UBSan',
              level_text='rcond against the true reciprocal condition number in the norm the driver must use (gated by n*eps*cond*growth), rcond <= 1, info = n+1 iff rcond < eps (exact comparison, near-threshold undecided), reciprocal pivot growth recomputed from the returned store also over the leading columns of singular returns; matrices whose 1- and inf-norm condition numbers differ by >= 1e3',
@@ -68,7 +68,7 @@ META = {
              level_note='trusted: long double reference; rows whose denominator underflows are undecided; vendor-BLAS runs fall back to tolerance where bitwise replay differs'),
 
  'C09': dict(technique='runtime monitoring: ThreadSanitizer on mixed concurrent jobs + bitwise output comparison alone / concurrent / after unrelated calls under junk-filled heaps',
-             level_text='job pools mixing drivers, factor/solve/refine/condition routines, orderings and ILU in four precisions on 2-16 threads with injected yields at allocation points (TSan build: data-race reports with a library frame), and bitwise equality of every job output with its solo reference, across repetitions and call histories (-O2 and ASan builds); evidence reports jobs in flight and distinct interleaving signatures',
+             level_text='job pools mixing drivers, factor/solve/refine/condition routines, orderings and ILU in four precisions on 2-16 threads with injected yields at allocation points (TSan build: data-race reports with a library frame), and bitwise equality of every job output with its solo reference, across repetitions and call histories (-O2 and ASan builds); evidence reports jobs in flight and distinct interleaving signatures; the statistics object and the output-only arrays (ferr, berr, rcond, rpg) carry left-overs of earlier calls in every second execution',
              level_note='trusted: TSan (fully instrumented library; the monitor ledger mutex is hidden from TSan so it creates no happens-before edges); absence of races is only shown for the interleavings produced'),
 }
 NOT_APPLICABLE = [dict(property_id=p, reason='check not registered yet in this revision (under construction; see DESIGN.md section 5)') for p in _ALL if p not in META]
